@@ -657,7 +657,25 @@ impl Machine {
                         None => out.s("bad-op"),
                     }
                 }
-                #[cfg(not(any(target_arch = "x86_64", all(target_family = "wasm", target_feature = "simd128"))))]
+                #[cfg(target_arch = "aarch64")]
+                {
+                    let Some(imm) = parse_dec(toks[2]) else { bad!() };
+                    let mut ops = [0u128; 6];
+                    let mut k = 0;
+                    for t in &toks[3..n] {
+                        let Some(v) = parse_u128_hex(t) else { bad!() };
+                        ops[k] = v;
+                        k += 1;
+                    }
+                    match unsafe { intrin::neon::run(toks[1], imm, &ops[..k]) } {
+                        Some(v) => {
+                            out.u64_hex((v >> 64) as u64);
+                            out.u64_hex(v as u64);
+                        }
+                        None => out.s("bad-op"),
+                    }
+                }
+                #[cfg(not(any(target_arch = "x86_64", target_arch = "aarch64", all(target_family = "wasm", target_feature = "simd128"))))]
                 out.s("none");
             }
             (b"reset", 1) => {
